@@ -10,6 +10,7 @@ import (
 	"verif/sim/choice"
 	"verif/sim/core"
 	"verif/sim/ref"
+	"verif/sim/sched"
 	"verif/sim/sw"
 )
 
@@ -290,8 +291,7 @@ func c13Explore(src *choice.Src) *core.Result {
 	w := r.w
 	w.Backend = sw.UniBackend{}
 	w.Universes = unis
-	r.s.SwitchNum = 1
-	r.s.SwitchDen = []int{1, 2, 4, 16}[src.Intn(4)]
+	r.s.SetShape(src.Intn(6))
 	m := w.NewMachine()
 	st := &c13State{w: w, res: res, unis: unis, k: int64(k), accepted: map[int][]c13Accepted{}, mask: map[int]int{}}
 	w.OnWriteCache = func(c *sw.ClientInfo, file string, data []byte) { w.CheckCacheWrite("C13", c, file, data) }
@@ -506,6 +506,162 @@ func c13Explore(src *choice.Src) *core.Result {
 	res.Trivial = nOut == 0
 	res.Sample = map[string]interface{}{"tile_height": height, "log_A": nA, "log_B": B.N(), "common_prefix": k, "clients": nclients,
 		"faults_fired": res.Faults, "lookups": nOut, "lookups_failed": nErr, "config_writes": len(m.ConfigWrites), "security_errors": res.Probes["SecurityError-called"], "scheduler_steps": res.Steps}
+	return res
+}
+
+// c13SplitView: an equivocating server shows the two logs to different goroutines of ONE long-lived
+// client process at the same time (each connection sees one log consistently: its lookup answers and
+// its tiles). Whatever the interleaving, one process must not accept heads of both logs beyond the
+// fork, the stored head must stay on one timeline, and a reported fork must come with both heads.
+func c13SplitView(src *choice.Src) *core.Result {
+	res := core.NewResult()
+	height := src.Weighted(3, 3, 2, 1, 1, 1, 1, 2) + 1
+	k := src.Range(0, 12)
+	nA := k + src.Range(1, 10)
+	nB := k + src.Range(1, 10)
+	base := src.Intn(sw.PoolSize)
+	A := buildUniverse("A", base, nA, 0)
+	B := A.Fork("B", int64(k))
+	for i := k; B.N() < int64(nB); i++ {
+		if i < nA && src.Bool(2, 3) {
+			B.Add(A.Mods[i], 1)
+		} else {
+			B.Add(sw.ModVer{Path: fmt.Sprintf("fork.example/b%d", i), Vers: "v1.0.0"}, 1)
+		}
+	}
+	unis := []*sw.Universe{A, B}
+	r := newSumRun("C13", src, res)
+	w := r.w
+	w.Backend = sw.UniBackend{}
+	w.Universes = unis
+	r.s.SetShape(src.Intn(6))
+	m := w.NewMachine()
+	st := &c13State{w: w, res: res, unis: unis, k: int64(k), accepted: map[int][]c13Accepted{}, mask: map[int]int{}}
+	w.OnWriteCache = func(c *sw.ClientInfo, file string, data []byte) { w.CheckCacheWrite("C13", c, file, data) }
+	w.OnWriteConfig = st.onWriteConfig
+	// what the machine has stored before the process starts: nothing, or a head of the common history,
+	// or a head of log A beyond the fork
+	name := sw.ServerName + "/latest"
+	switch src.Weighted(3, 3, 1) {
+	case 1:
+		if k > 0 {
+			m.Config[name] = A.Signed(int64(src.Range(1, k)))
+		}
+	case 2:
+		m.Config[name] = A.Signed(int64(src.Range(1, nA)))
+	}
+	nclients := src.Weighted(4, 1) + 1
+	type view struct {
+		u *sw.Universe
+		n int64
+	}
+	views := map[int]view{} // root task id -> what its connections are shown
+	for ci := 0; ci < nclients; ci++ {
+		spec := clientSpec{Height: height, Uni: 0, Size: int64(nA)}
+		ntasks := src.Range(2, 4)
+		var tv []view
+		for t := 0; t < ntasks; t++ {
+			ui := (t + src.Intn(2)) % 2
+			if t < 2 {
+				ui = t // the first two goroutines always see different logs
+			}
+			u := unis[ui]
+			lo := k
+			if lo < 1 {
+				lo = 1
+			}
+			n := int64(src.Range(lo, int(u.N())))
+			if src.Bool(1, 2) {
+				n = u.N()
+			}
+			tv = append(tv, view{u, n})
+			var reqs []lookupReq
+			for q, nq := 0, src.Range(1, 3); q < nq; q++ {
+				id := int64(src.Intn(int(n)))
+				if src.Bool(1, 2) {
+					id = n - 1
+				}
+				mv := u.Mods[id]
+				v := mv.Vers
+				if src.Bool(1, 4) {
+					v += "/go.mod"
+				}
+				reqs = append(reqs, lookupReq{mv.Path, v})
+			}
+			spec.Tasks = append(spec.Tasks, reqs)
+		}
+		c := w.NewClient(m, r.s.NewGroup(), height, A, int64(nA))
+		c.FatalSecurity = src.Bool(1, 4)
+		c.ViewOf = func() (*sw.Universe, int64) {
+			v, ok := views[sched.CurrentRoot()]
+			if !ok {
+				return nil, 0
+			}
+			return v.u, v.n
+		}
+		r.clients = append(r.clients, c)
+		r.specs = append(r.specs, spec)
+		start := func() {
+			first := r.s.NextTaskID()
+			r.startClient(spec, c, "")
+			for t := range tv {
+				views[first+t] = tv[t]
+			}
+		}
+		if ci == 0 {
+			start()
+		} else if src.Bool(1, 2) {
+			r.s.At(src.Range(1, 150), start)
+		} else {
+			r.s.WhenIdle(start)
+		}
+	}
+	// sometimes the process is killed and restarted on what it stored
+	if src.Bool(1, 4) {
+		step := src.Range(1, 150)
+		r.s.At(step, func() {
+			old := r.clients[0]
+			if old.Crashed {
+				return
+			}
+			res.Logf("CRASH client %d at step %d; restarting on the surviving cache and config", old.ID, r.s.Steps())
+			res.Faults["crash-restart"]++
+			r.s.AbortGroup(old.Group)
+			old.Crashed = true
+			nc := w.NewClient(old.Machine, r.s.NewGroup(), old.Height, old.Uni, old.Size)
+			nc.FatalSecurity = old.FatalSecurity
+			nc.ViewOf = old.ViewOf
+			r.clients[0] = nc
+			first := r.s.NextTaskID()
+			r.startClient(r.specs[0], nc, ".r")
+			for t := range r.specs[0].Tasks {
+				views[first+t] = views[t] // client 0's first goroutines have ids 0..ntasks-1
+			}
+		})
+	}
+	r.afterLookup = c13AfterLookup(st, res, int64(k))
+	res.Logf("C13 split view: height %d, log A %d, log B %d, common prefix %d, %d client processes, stored at start: %d bytes", height, nA, B.N(), k, nclients, len(m.Config[name]))
+	res.Faults["split-view(per-goroutine equivocation)"]++
+	r.finish(false)
+	st.checkStoredAtQuiescence(r, m)
+	for _, c := range w.Clients {
+		for _, msg := range c.Security {
+			st.checkSecurityMessage(c, msg)
+		}
+	}
+	nOut, nErr := 0, 0
+	for _, os := range r.outcomes {
+		for _, o := range os {
+			nOut++
+			if o.Err != nil {
+				nErr++
+			}
+		}
+	}
+	res.Sig = choice.Mix(res.Digest, choice.MixString(fmt.Sprint("split", height, nA, B.N(), k)))
+	res.Trivial = nOut == 0
+	res.Sample = map[string]interface{}{"tile_height": height, "log_A": nA, "log_B": B.N(), "common_prefix": k, "clients": nclients,
+		"lookups": nOut, "lookups_failed": nErr, "config_writes": len(m.ConfigWrites), "security_errors": res.Probes["SecurityError-called"], "scheduler_steps": res.Steps}
 	return res
 }
 
@@ -756,8 +912,8 @@ func c13Enumerate(quick bool, seed uint64, shard, nshards int, emit func([]uint6
 func init() {
 	core.Register(&core.Prop{
 		ID:      "C13",
-		Entries: []core.Entry{{Name: "explore", Run: c13Explore}, {Name: "forksweep", Run: c13SweepRun}},
-		Explore: []string{"explore"},
+		Entries: []core.Entry{{Name: "explore", Run: c13Explore}, {Name: "forksweep", Run: c13SweepRun}, {Name: "splitview", Run: c13SplitView}},
+		Explore: []string{"explore", "explore", "splitview"},
 		Sweeps: []core.Sweep{{Name: "small-forks", Entry: "forksweep", Enumerate: c13Enumerate,
 			Space: "tile heights 1..3 (quick 1..2) x log A sizes 1..9 (quick 1..6) x every common prefix length x log B 0..4 records beyond the prefix x which log is shown first x which record the second lookup asks for (newest, oldest, at the fork point, just before it) x {same client process after a view switch, new process on the same machine} x {security callback returns, security callback exits the process}"}},
 		Rule: "explore: seeded pair of logs with common prefix 0..n (sizes 1-40 and prefix+0..12), both signed by the log key; 1-3 clients sharing one config and cache, each shown either log at any size, views switching mid-run, answers from the other log, cache entries from the other log, config rollback/replacement/garbage, crash-restarts, tile heights 1-8. " +
